@@ -1,7 +1,7 @@
 #!/bin/sh
 # usage: seed_verify.sh PATCH DEMO  - confirms in the scratch worktree /tmp/seed/verify (at /repo's HEAD) that the
 # patch applies, the 86 pinned tests still pass with it, and the demo fails with / passes without it.
-WT=/tmp/seed/verify
+WT=${WT:-/tmp/seed/verify}
 PATCH=$(readlink -f "$1"); DEMO=$(readlink -f "$2")
 cd $WT || exit 2
 git checkout -q --detach $(git -C /repo rev-parse HEAD) 2>/dev/null; git checkout -q -- .
